@@ -352,6 +352,14 @@ def _colliding(kind):
                     return ret
             return Twin
         S1, S2 = make(1), make(2)
+    elif kind == 'same public name, other function':
+        # two services stamped out under one class name whose differently named functions publish the same bare message
+        def make(ret, fname):
+            def fn(ctx, p):
+                return ret
+            fn.__name__ = fname
+            return type('Stamp', (Service,), {fname: rpc(Parcel, _returns=Integer, _body_style='bare', _in_message_name='submit')(fn)})
+        S1, S2 = make(1, 'alpha'), make(2, 'beta')
     elif kind == 'primary and auxiliary':
         # not a collision: an auxiliary service may shadow the methods of a primary one, whichever is listed first
         from spyne.auxproc.sync import SyncAuxProc
@@ -372,9 +380,10 @@ def _colliding(kind):
     return S1, S2
 
 
-@harness('C11', params=['same-name wrapped', 'operation_name', 'bare in_message_name', 'twin services bare', 'twin services wrapped', 'primary and auxiliary'],
+@harness('C11', params=['same-name wrapped', 'operation_name', 'bare in_message_name', 'twin services bare', 'twin services wrapped', 'primary and auxiliary',
+                        'same public name, other function'],
          functions=['spyne.interface._base.Interface.process_method', 'spyne.application.Application.check_unique_method_keys'],
-         bounds={'universes': 'five concrete pairs of services whose methods answer to the same name and one primary/auxiliary pair, in both orders '
+         bounds={'universes': 'six concrete pairs of services whose methods answer to the same name and one primary/auxiliary pair, in both orders '
                               '(enumeration of programs, no symbolic input)'})
 def colliding_names_rejected(sx, kind):
     """two methods that would answer to the same name are rejected when the application is constructed - or, if the
